@@ -667,6 +667,9 @@ def run(prop: str, tier: str, only=None) -> Result:
         f"{n_hist} seeded random histories of <= {length} operations (add / copy / move / remove / remove_children / set_data / rename / del) "
         f"from random trees with <= 5 nodes in random data flavours, lookups re-checked after every step (VERIF_SEED={seed()})"
     )
+    from . import c13  # index consistency after an add that the typed constructor refuses for its kind
+
+    total.merge(c13.badkind(prop, tier))
     total.exhaustive = False
     return total
 
@@ -683,6 +686,10 @@ def replay(witness: dict, prop: str) -> list[tuple[str, str]]:
     spec = spec_from_json(witness["spec"])
     flavour = witness.get("flavour", "str")
     kind = witness.get("kind")
+    if kind == "badkind":
+        from . import c13
+
+        return c13.replay(witness, prop)
     if kind == "static":
         vs, _n = check_static(prop, spec, flavour)
         return [(v.clause, v.text) for v in vs if _match(v, witness)]
